@@ -27,11 +27,22 @@ Arrays == {Sq("nd", "i64", <<2>>, <<"hi2", "b">>), Sq("nd", "i64", <<1>>, <<"b">
 Dicts == {Dc("float", <<>>), Dc("float", <<<<"p", "a">>>>), Dc("float", <<<<"p", "a">>, <<"q", "b">>>>),
           Dc("float", <<<<"q", "b">>>>), Dc("float", <<<<"p", "nan">>>>), Dc("int", <<<<"p", "hi2">>>>),
           Dc("int", <<<<"p", "b">>, <<"q", "hi2">>>>), Dc("str", <<<<"p", "a">>>>)}
-Full == {NoneE} \cup PyScalars \cup NpScalars \cup Lists \cup Tuples \cup Arrays \cup Dicts
+\* "special" neighbours of the None markers that a maintenance slip could confuse with them.  They are ordinary VALUES:
+\* only NaN is the unset marker for reals (+inf, -inf, -0.0, the largest finite real stay what they are), and for integers
+\* only min+2 (signed) / max-2 (unsigned): 0, -1 (unsigned: all ones = max) and marker-1 / marker+1 stay what they are.
+SpecialCore == {Sc("float", "pinf"), Sc("float", "ninf"), Sc("float", "nz"), Sc("float", "fmax"),
+                Sc("int", "z"), Sc("int", "m1"), Sc("int", "lo3"), Sc("u8", "m1"), Sc("u8", "hi3"),
+                Sq("nd", "f64", <<2>>, <<"pinf", "a">>), Dc("float", <<<<"p", "pinf">>>>)}
+Special == SpecialCore \cup
+           {Sc("f64", "pinf"), Sc("int", "lo1"), Sc("i8", "m1"), Sc("i8", "lo3"), Sc("u8", "z"), Sc("u8", "hi1"), Sc("u64", "m1"),
+            Sq("list", "float", <<2>>, <<"ninf", "nz">>), Sq("nd", "f64", <<1>>, <<"fmax">>), Sq("nd", "u8", <<2>>, <<"m1", "z">>),
+            Sq("list", "int", <<2>>, <<"z", "m1">>),
+            Dc("float", <<<<"p", "ninf">>, <<"q", "nan">>>>), Dc("int", <<<<"p", "z">>, <<"q", "m1">>>>)}
+Full == {NoneE} \cup PyScalars \cup NpScalars \cup Lists \cup Tuples \cup Arrays \cup Dicts \cup Special
 
 \* representatives of every mechanism for the longer collections
-Mid == {NoneE, Sc("int", "b"), Sc("float", "a"), Sc("float", "nan"), Sc("bool", "a"), Sc("str", "a"),
-        Sc("u8", "lo2"), Sc("i8", "hi2"),
+Mid == {NoneE, Sc("int", "b"), Sc("float", "a"), Sc("float", "nan"), Sc("float", "pinf"), Sc("str", "a"),
+        Sc("u8", "lo2"),
         Sq("list", "int", <<2>>, <<"hi2", "b">>), Sq("list", "int", <<1>>, <<"b">>), Sq("list", "float", <<0>>, <<>>),
         Sq("list", "float", <<2>>, <<"a", "none">>),
         Sq("tuple", "int", <<2>>, <<"b", "hi2">>), Sq("nd", "i64", <<2>>, <<"hi2", "b">>), Sq("nd", "f64", <<2>>, <<"a", "nan">>),
@@ -43,7 +54,7 @@ Small == {NoneE, Sc("int", "b"), Sc("float", "a"), Sc("u8", "lo2"), Sc("str", "a
           Dc("float", <<<<"p", "a">>>>), Dc("float", <<<<"q", "b">>>>)}
 
 \* thorough, three entries: everything except the middle integer widths (i16/i32/u16/u32 behave as i8/u8 in pairs already)
-Large == Full \ ({Sc(k, v) : k \in {"i16", "i32", "u16", "u32"}, v \in {"hi2", "lo2", "b"}}
+Large == Full \ ((Special \ SpecialCore) \cup {Sc(k, v) : k \in {"i16", "i32", "u16", "u32"}, v \in {"hi2", "lo2", "b"}}
                  \cup {Sc("float", "b"), Sc("bool", "b"), Sc("str", "b"), Sc("i64", "b"), Sc("u64", "b"), Sc("i8", "b"),
                        Sq("list", "int", <<3>>, <<"b", "hi2", "b">>), Sq("nd", "f64", <<3>>, <<"b", "a", "b">>),
                        Sq("list", "bool", <<2>>, <<"a", "b">>), Sq("nd", "b1", <<2>>, <<"a", "b">>),
